@@ -150,6 +150,11 @@ func genC19(t *rapid.T) *C19Case {
 	if rapid.Bool().Draw(t, "hasdeny") {
 		c.Rules = append(c.Rules, C19Rule{ID: 650, Phase: rapid.IntRange(1, 4).Draw(t, "dphase"), Flags: rapid.SampledFrom(flagSets).Draw(t, "dflags"), Cond: rapid.Bool().Draw(t, "dcond"), Deny: true,
 			St: rapid.SampledFrom([]int{0, 403, 404, 500, 200, 302}).Draw(t, "dstatus")})
+		if rapid.IntRange(0, 2).Draw(t, "hasdeny2") == 0 {
+			// a second disruptive rule with its own status: the first (real or would-be) interruption is the one that counts
+			c.Rules = append(c.Rules, C19Rule{ID: 651, Phase: rapid.IntRange(1, 4).Draw(t, "dphase2"), Flags: rapid.SampledFrom(flagSets).Draw(t, "dflags2"), Cond: rapid.Bool().Draw(t, "dcond2"), Deny: true,
+				St: rapid.SampledFrom([]int{0, 403, 404, 500, 200, 302, 406}).Draw(t, "dstatus2")})
+		}
 	}
 	c.Hit = rapid.Bool().Draw(t, "hit")
 	c.RespStatus = rapid.SampledFrom([]int{200, 404, 500, 302, 403}).Draw(t, "rstatus")
